@@ -115,7 +115,7 @@ func runC04(c *Ctx) {
 	r.Floor("R2", "guarded handler-set fields", len(guarded), 5)
 	funcs := c.clientFuncs()
 	ls := c.ComputeLocksets(funcs)
-	const lock = "client.hSet.RWMutex"
+	lock := c.lockFieldName(c.Client, "hSet")
 	memo := map[*types.Var]int{}
 	nKeys, nAcc := 0, 0
 	for _, fn := range funcs {
@@ -852,4 +852,22 @@ func (c *Ctx) freshParsedLineRule(rule string) {
 		}
 	}
 	r.Floor(rule, "sends on the inbound queue", n, 1)
+}
+
+// lockFieldName names the abstract lock of a module struct: the (first) field
+// of type sync.Mutex / sync.RWMutex, embedded or named, as lockObj spells it.
+func (c *Ctx) lockFieldName(pk *ssa.Package, typ string) string {
+	nt := c.Named(pk, typ)
+	if nt == nil {
+		return pk.Pkg.Name() + "." + typ + ".?"
+	}
+	if st, ok := nt.Underlying().(*types.Struct); ok {
+		for i := 0; i < st.NumFields(); i++ {
+			switch typeString(st.Field(i).Type()) {
+			case "sync.Mutex", "sync.RWMutex":
+				return pk.Pkg.Name() + "." + typ + "." + st.Field(i).Name()
+			}
+		}
+	}
+	return pk.Pkg.Name() + "." + typ + ".?"
 }
